@@ -4,6 +4,7 @@
 -/
 import Keto.Model.Engine
 import Keto.Proofs.FactsTie
+import Keto.Proofs.FactsTieWidth
 import Keto.Spec.Membership
 import Keto.Spec.Positive
 import Keto.Proofs.EngineSound
@@ -44,6 +45,10 @@ theorem C02_clamp_explicit (E : Env) (g : Int) (hg : 1 ≤ g) (fuel : Nat) (q : 
 
 -- non-vacuity: the clamp really changes a request (r = 7 against g = 3 runs with 3).
 example : effDepth 7 3 = 3 ∧ effDepth (-1) 3 = 3 ∧ effDepth 2 3 = 2 ∧ effDepth 0 3 = 3 := by decide
+
+/-- Where the width limit applies in the code is where it applies in the model: in the subject-set expansion
+    of a direct check, and in no other traversal (regenerated from the sources on every run). -/
+theorem C02_width_sites_tie : Facts.widthSites = FactsTie.expectedWidthSites := FactsTie.widthSites_tie
 
 /-- Limits fail closed (positive fragment): whatever is allowed under limits `g` (global max depth),
     `r` (request depth), `E.maxWidth` (max read width) and `E.pageSize` is allowed by the unbounded
